@@ -40,7 +40,7 @@ def gen_preamble(rng):
             vals.append(v)
         defs[n] = vals
         entries.append(mk('variable', [n, vals, True]))
-        if rng.random() < 0.35:
+        for _ in range(rng.choice([0, 0, 1, 1, 2, 3])):
             extra = [rng.choice(lit) + ('@{%s}' % rng.choice(names[:i]) if i > 0 and rng.random() < 0.5 else '')]
             entries.append(mk('variable', [n, extra, False]))
     # definitions in any order in the file (a += stays after its own =): forward references are legal
